@@ -75,8 +75,56 @@ def run(tier, seed, replay):
         prelude = evalfam.make_prelude(work, vh)
         r = random.Random(seed)
         quick = tier == "quick"
+        def check_reuse(ucases):
+            for c, x in zip(ucases, vc.run_restartable([vh, "caps"], ucases, work, "reuse")):
+                rep.count("evaluations")
+                if x.get("panic") or "shared" not in x:
+                    rep.violation("panic/hang compiling with reused option values: %s" % (x.get("panic") or "no result"), {"family": "caps", "case": c, "actual": x})
+                    continue
+                bad = [i for i, (a, b) in enumerate(zip(x["shared"], x["fresh"])) if {k: v for k, v in a.items() if k not in ("cerr", "perr")} != {k: v for k, v in b.items() if k not in ("cerr", "perr")} or ("cerr" in a) != ("cerr" in b)]
+                if bad:
+                    i = bad[0]
+                    rep.violation("a compile option value behaves differently after it was used by an earlier compilation: step %d (%r with options %s of %s): reused values give %s, fresh values give %s" % (
+                        i + 1, c["steps"][i]["src"], c["steps"][i]["use"], c["opts"], json.dumps(x["shared"][i])[:200], json.dumps(x["fresh"][i])[:200]), {"family": "caps", "case": c, "actual": x["shared"], "expected": x["fresh"]})
+                else:
+                    rep.count("traces_validated_against_impl")
+                    rep.nontrivial(["reuse", c["opts"], c["steps"]])
+
+        def check_history(hcases):
+            for c, x in zip(hcases, vc.run_restartable([vh, "caps"], hcases, work, "hist")):
+                rep.count("evaluations")
+                runs = x.get("runs")
+                if not runs or any(u.get("long") for u in runs):
+                    rep.count("out_of_model")
+                    continue
+                key = lambda u: json.dumps({k: u.get(k) for k in ("out", "panic")}, sort_keys=True) + str((u.get("err") or {}).get("k"))
+                on_input = [key(u) for u in runs if u["on"] in ("input", "fresh-code")]
+                if len(set(on_input)) > 1:
+                    rep.violation("the output of %r on %s depends on what the same compiled query ran before (other input %s): %s" % (
+                        c["src"], evalfam.show(c["input"]), evalfam.show(c["other"]), [json.dumps(u.get("out"))[:80] + " " + str((u.get("err") or {}).get("k")) for u in runs if u["on"] in ("input", "fresh-code")]),
+                        {"family": "caps", "case": c, "actual": runs})
+                else:
+                    rep.count("traces_validated_against_impl")
+                    rep.nontrivial(["history", c["src"], c["input"], c["other"]])
+
         if replay:
-            evalfam.replay_file(rep, work, vh, prelude, replay)
+            rc = json.load(open(replay))["case"]
+            if rc.get("k") == "reuse":
+                check_reuse([dict(rc, id=0)])
+            elif rc.get("k") == "history":
+                check_history([dict(rc, id=0)])
+            elif rc.get("k") == "custom":
+                x = vc.run_restartable([vh, "caps"], [dict(rc, id=0)], work, "rcustom")[0]
+                y = evalfam.replay(work, vh, [{"id": 0, "src": jq_defs(rc["regs"], rc["iregs"]) + rc["src"], "inputs": [rc["input"]]}], tag="rdefs")[0]
+                run_ = (y.get("runs") or [{}])[0]
+                rep.count("evaluations")
+                if x.get("out") != run_.get("out") or (x.get("err") is None) != (run_.get("err") is None):
+                    rep.violation("a Go function is not interchangeable with the equivalent jq definition: %r: callback gives %s err=%s, definition gives %s err=%s" % (
+                        rc["src"], x.get("out"), x.get("err"), run_.get("out"), run_.get("err")), {"family": "caps", "case": rc, "actual": x, "expected": run_})
+                else:
+                    rep.count("traces_validated_against_impl")
+            else:
+                evalfam.replay_file(rep, work, vh, prelude, replay)
             return rep.finish(min_decided=0)
         # ---------------- (ii) options against Caps.tla
         caps = []
@@ -197,19 +245,7 @@ def run(tier, seed, replay):
                 use = sorted(r.sample(range(len(opts)), r.randrange(1, len(opts) + 1)), key=lambda _: r.random())
                 steps.append({"src": r.choice(srcs), "use": use})
             ucases.append({"id": len(ucases), "k": "reuse", "opts": opts, "steps": steps, "input": r.choice(uni)})
-        for c, x in zip(ucases, vc.run_restartable([vh, "caps"], ucases, work, "reuse")):
-            rep.count("evaluations")
-            if x.get("panic") or "shared" not in x:
-                rep.violation("panic/hang compiling with reused option values: %s" % (x.get("panic") or "no result"), {"family": "caps", "case": c, "actual": x})
-                continue
-            bad = [i for i, (a, b) in enumerate(zip(x["shared"], x["fresh"])) if {k: v for k, v in a.items() if k not in ("cerr", "perr")} != {k: v for k, v in b.items() if k not in ("cerr", "perr")} or ("cerr" in a) != ("cerr" in b)]
-            if bad:
-                i = bad[0]
-                rep.violation("a compile option value behaves differently after it was used by an earlier compilation: step %d (%r with options %s of %s): reused values give %s, fresh values give %s" % (
-                    i + 1, c["steps"][i]["src"], c["steps"][i]["use"], c["opts"], json.dumps(x["shared"][i])[:200], json.dumps(x["fresh"][i])[:200]), {"family": "caps", "case": c, "actual": x["shared"], "expected": x["fresh"]})
-            else:
-                rep.count("traces_validated_against_impl")
-                rep.nontrivial(["reuse", c["opts"], c["steps"]])
+        check_reuse(ucases)
         # ---------------- the output is a function of the query and the input alone: not of what the same code ran before
         hcases = []
         coll = [(["xa", "ai", None], ["A", "a", "i"]), (["A", "a", "i"], ["xa", "ai", None]), (["xag", "ag", None], ["aXa", "a", "g"]), (["b", "b", "gi"], ["big", "bgi", None]), (["ab", "a", ""], ["ab", "", "a"]),
@@ -227,21 +263,7 @@ def run(tier, seed, replay):
             n, ar = r.choice(names2).rsplit("/", 1)
             src = ".[0] as $x | .[1] as $a | $x | try " + n + ("(" + "; ".join(["$a"] * int(ar)) + ")" if int(ar) else "") + ' catch "err"'
             hcases.append({"id": len(hcases), "k": "history", "src": src, "input": {"t": "arr", "a": [r.choice(uni), r.choice(uni)]}, "other": {"t": "arr", "a": [r.choice(uni), r.choice(uni)]}})
-        for c, x in zip(hcases, vc.run_restartable([vh, "caps"], hcases, work, "hist")):
-            rep.count("evaluations")
-            runs = x.get("runs")
-            if not runs or any(u.get("long") for u in runs):
-                rep.count("out_of_model")
-                continue
-            key = lambda u: json.dumps({k: u.get(k) for k in ("out", "panic")}, sort_keys=True) + str((u.get("err") or {}).get("k"))
-            on_input = [key(u) for u in runs if u["on"] in ("input", "fresh-code")]
-            if len(set(on_input)) > 1:
-                rep.violation("the output of %r on %s depends on what the same compiled query ran before (other input %s): %s" % (
-                    c["src"], evalfam.show(c["input"]), evalfam.show(c["other"]), [json.dumps(u.get("out"))[:80] + " " + str((u.get("err") or {}).get("k")) for u in runs if u["on"] in ("input", "fresh-code")]),
-                    {"family": "caps", "case": c, "actual": runs})
-            else:
-                rep.count("traces_validated_against_impl")
-                rep.nontrivial(["history", c["src"], c["input"], c["other"]])
+        check_history(hcases)
         # the definition runs against the specification
         counters = evalfam.check_cases(rep, work, vh, prelude, dcases, tag="defspec", timeout=1500, per_shard_min=20)
         rep.cov["definition_verdicts_vs_spec"] = counters
